@@ -27,7 +27,7 @@ pub static PROP: PropDef = PropDef {
         "streams are only judged while the application keeps calling accept()",
     ],
     tape_len: 200,
-    random_cases: |t| t.pick(40_000, 1_500_000),
+    random_cases: |t| t.pick(160_000, 15_000_000),
     run_tape,
     exhaustive: Some(exhaustive),
     run_direct: Some(run_direct),
